@@ -5,7 +5,6 @@ use refmodel::eip712::{self, Doc};
 use refmodel::json::{Class, J};
 use serde_json::json;
 
-pub type Obs = Option<([u8; 32], [u8; 32], [u8; 32])>;
 pub fn observe(text: &str) -> Result<Result<([u8; 32], [u8; 32], [u8; 32]), String>, String> {
     guard(|| serde_json::from_str::<TypedData>(text).map(|t| (t.domain_separator().0, t.message_hash().0, t.signing_message().0)).map_err(|e| e.to_string()))
 }
@@ -17,7 +16,7 @@ pub fn check_json(ctx: &Ctx, p: &str, sweep: &str, index: u64, shape: &str, text
     let (class, why) = verdict;
     let replay = || json!({"sweep": sweep, "index": index, "entry": "serde_json::from_str::<TypedData>", "typed_data_json": if text.len() > 6000 { format!("{}…", &text[..6000]) } else { text.to_string() }, "reference": class.name(), "reference_note": why,
         "reference_digest": match &class { Class::Accept(d) | Class::Unc(d) => Some(explore::hex(&d.digest)), _ => None }});
-    let stride = match ctx.property.as_str() { "C08" => 7, "C09" => 1, "C20" => if sweep.starts_with("ill-formed") { 4 } else { 61 }, _ => 0 };
+    let stride = match ctx.property.as_str() { _ if sweep.starts_with("value-pairs") => 11, "C08" => 7, "C09" => 1, "C20" => if sweep.starts_with("ill-formed") { 4 } else { 61 }, _ => 0 };
     if stride > 0 && text.len() < 100_000 { ctx.emit_cli(sweep, index, stride, || json!({"kind": "typeddata", "shape": shape, "json": text, "class": class.name(), "digests": match &class { Class::Accept(d) | Class::Unc(d) => Some(vec![explore::hex(&d.domain_separator), explore::hex(&d.message_hash), explore::hex(&d.digest)]), _ => None }})); }
     ctx.sample(sweep, || json!({"shape": shape, "reference": class.name(), "json": if text.len() > 700 { format!("{}…", &text[..700]) } else { text.to_string() }}));
     match observe(text) {
@@ -38,4 +37,33 @@ pub fn sv(v: &[(&str, &str)]) -> Vec<(String, String)> { v.iter().map(|(a, b)| (
 pub fn simple_doc(extra_types: Vec<(String, Vec<(String, String)>)>, primary: &str, message: J) -> Doc {
     let mut types = vec![("EIP712Domain".to_string(), sv(&[("name", "string"), ("chainId", "uint256")]))]; types.extend(extra_types);
     Doc { types, primary: primary.into(), domain: J::obj(vec![("name", J::s("hdwallet")), ("chainId", J::n("1"))]), message }
+}
+
+/// Relations BETWEEN two values of one document: all ordered pairs of items from an alphabet of (type, literal, container)
+/// as the two members of the message — the same literal under two types of one family (valid for one, out of range for
+/// the other), short atoms after full-width words, differently shaped sibling structs and arrays. What one value leaves
+/// behind (a memo keyed too coarsely, a recycled buffer) shows only in such pairs; the reference evaluates every document
+/// from scratch.
+pub fn value_pairs(ctx: &Ctx, p: &str, sweep: &str) {
+    let ff = |n: usize| format!("0x{}", "ff".repeat(n));
+    let atoms: Vec<(&str, J)> = vec![
+        ("uint8", J::s("255")), ("uint8", J::s("300")), ("uint16", J::s("300")), ("uint256", J::s("300")), ("uint256", J::s("115792089237316195423570985008687907853269984665640564039457584007913129639935")),
+        ("int8", J::s("-128")), ("int8", J::s("-1000")), ("int16", J::s("-1000")), ("int256", J::s("-1000")), ("int256", J::s("-1")),
+        ("bytes1", J::s("0xca")), ("bytes2", J::s("0xcafe")), ("bytes4", J::s("0xcafe")), ("bytes4", J::s("0xcafebabe")), ("bytes31", J::Str(ff(31))), ("bytes32", J::Str(ff(32))),
+        ("bytes", J::s("0xcafe")), ("string", J::s("0xcafe")), ("string", J::s("300")), ("address", J::Str(ff(20))), ("address", J::s("0x0000000000000000000000000000000000000001")), ("bool", J::Bool(true)), ("uint256", J::n("300")), ("uint8", J::n("300")),
+    ];
+    let forms = ["plain", "struct", "array", "fixed-array-2"]; let n_items = (atoms.len() * forms.len()) as u64;
+    let item = |k: u64, wrapper: &str| -> (String, J, Option<(String, Vec<(String, String)>)>, String) {
+        let (ty, v) = &atoms[(k as usize) / forms.len()]; let form = forms[(k as usize) % forms.len()];
+        let label = format!("{ty}={}/{form}", v.to_text());
+        match form { "plain" => (ty.to_string(), v.clone(), None, label), "struct" => (wrapper.to_string(), J::obj(vec![("x", v.clone())]), Some((wrapper.to_string(), sv(&[("x", ty)]))), label),
+            "array" => (format!("{ty}[]"), J::Arr(vec![v.clone()]), None, label), _ => (format!("{ty}[2]"), J::Arr(vec![v.clone(), v.clone()]), None, label) }
+    };
+    ctx.sweep(sweep, &format!("all ordered pairs of {} items ({} typed literals incl. the same literal under several widths, out-of-range ones and full-width words x plain / wrapped in a struct / one-element array / fixed array of two) as members a, b of the message", n_items, atoms.len()), n_items * n_items, |i| {
+        let (ta, va, wa, la) = item(i / n_items, "Wa"); let (tb, vb, wb, lb) = item(i % n_items, "Wb");
+        let mut types = vec![("Msg".to_string(), vec![("a".to_string(), ta), ("b".to_string(), tb)])]; if let Some(w) = wa { types.push(w); } if let Some(w) = wb { types.push(w); }
+        let doc = simple_doc(types, "Msg", J::obj(vec![("a", va), ("b", vb)]));
+        let fam = |l: &str| -> String { let t = l.split('=').next().unwrap(); let f: String = t.chars().take_while(|c| c.is_ascii_alphabetic()).collect(); format!("{f}{}", if t.len() > f.len() { "N" } else { "" }) };
+        check_doc(ctx, p, sweep, i, &format!("pair:{}/{},{}/{}", fam(&la), la.rsplit('/').next().unwrap(), fam(&lb), lb.rsplit('/').next().unwrap()), &doc);
+    });
 }
